@@ -133,7 +133,7 @@ func TestC35(t *testing.T) {
 		"Oracle: model of sequential verified advance. Non-trivial: a notification that advanced by >= 2 serials or stopped at a defective / unavailable serial.")
 	defer rec.Flush(t)
 	rec.Assume("the remote returns only TRCs with the requested id (the production gRPC fetcher rejects others)", "TRC update verification itself is C32's subject")
-	rec.Require("advance_1", "advance_multi", "stopped_unavailable", "stopped_missing_signature", "stopped_trust_reset_flipped", "stopped_vote_by_root", "stale_notification", "current_notification", "other_base", "retry_after_fix", "load_future_ignored", "load_stored", "load_already_present")
+	rec.Require("advance_1", "advance_multi", "stopped_unavailable", "stopped_missing_signature", "stopped_trust_reset_flipped", "stopped_vote_by_root", "stale_notification", "current_notification", "other_base", "retry_after_fix", "load_future_ignored", "load_stored", "load_already_present", "periodic_loader_repeated")
 	w := c35Setup()
 	rapid.Check(t, func(rt *rapid.T) {
 		ctx := context.Background()
@@ -179,9 +179,17 @@ func TestC35(t *testing.T) {
 				rt.Fatalf("after %s: latest TRC is %v (err %v), expected serial %d base 1 (%v)", what, latest.TRC.ID, err, L, history)
 			}
 		}
+		dir := ""
+		var loader *trust.TRCLoader
+		nPeriodic := 0
+		defer func() {
+			if dir != "" {
+				os.RemoveAll(dir)
+			}
+		}()
 		steps := rapid.IntRange(2, 10).Draw(rt, "steps")
 		for i := 0; i < steps; i++ {
-			switch rapid.SampledFrom([]string{"notify", "notify", "notify", "serve", "load"}).Draw(rt, "step") {
+			switch rapid.SampledFrom([]string{"notify", "notify", "notify", "serve", "load", "load"}).Draw(rt, "step") {
 			case "serve":
 				s := rapid.IntRange(2, 7).Draw(rt, "serial")
 				f.serve[s] = rapid.SampledFrom([]string{"good", "good", "", "missing_signature", "trust_reset_flipped", "vote_by_root"}).Draw(rt, "kind")
@@ -246,9 +254,15 @@ func TestC35(t *testing.T) {
 					labels["retry_after_fix"] = true
 				}
 			case "load":
-				dir, err := os.MkdirTemp("", "verif-c35-")
-				if err != nil {
-					rt.Fatalf("harness: %v", err)
+				// one directory per case, loaded repeatedly: once-only loader (LoadTRCs) or the periodic
+				// loader object that remembers the files it has dealt with
+				if dir == "" {
+					d, err := os.MkdirTemp("", "verif-c35-")
+					if err != nil {
+						rt.Fatalf("harness: %v", err)
+					}
+					dir = d
+					loader = &trust.TRCLoader{Dir: dir, DB: db}
 				}
 				write := func(name string, st cppki.SignedTRC, asPEM bool) {
 					raw := st.Raw
@@ -263,16 +277,28 @@ func TestC35(t *testing.T) {
 				next := L + 1
 				loadNext := next <= 7 && rapid.Bool().Draw(rt, "loadNext")
 				if loadNext {
-					write("next.trc", w.good[next], rapid.Bool().Draw(rt, "pem2"))
+					write(fmt.Sprintf("next%d.trc", next), w.good[next], rapid.Bool().Draw(rt, "pem2"))
 				}
 				write("old.trc", w.good[1], false)
-				res, err := trust.LoadTRCs(ctx, dir, db)
-				os.RemoveAll(dir)
-				if err != nil {
-					rt.Fatalf("LoadTRCs: %v", err)
+				var res trust.LoadResult
+				var err error
+				periodic := rapid.Bool().Draw(rt, "periodicLoader")
+				if periodic {
+					res, err = loader.Load(ctx)
+					nPeriodic++
+					if nPeriodic >= 2 {
+						labels["periodic_loader_repeated"] = true
+					}
+				} else {
+					res, err = trust.LoadTRCs(ctx, dir, db)
 				}
-				if _, ok := res.Ignored[filepath.Join(dir, "future.trc")]; !ok {
-					rt.Fatalf("a TRC whose validity starts in 30 days was not ignored when loading from disk: loaded %v", res.Loaded)
+				if err != nil {
+					rt.Fatalf("loading TRCs: %v", err)
+				}
+				for _, f := range res.Loaded {
+					if filepath.Base(f) == "future.trc" {
+						rt.Fatalf("a TRC whose validity starts in 30 days was loaded from disk (periodic loader: %v, round %d): %v", periodic, nPeriodic, res.Loaded)
+					}
 				}
 				labels["load_future_ignored"] = true
 				labels["load_already_present"] = true
